@@ -1,7 +1,7 @@
 """Property registry and the generic check procedure."""
 import os, sys, json, time, re, hashlib
 from common import *
-import pyref, props
+import pyref, props, special
 from pyref import SplitMix64
 
 TRUSTED = [
@@ -51,6 +51,18 @@ def register():
     R["C03"] = P(["Dalek.Props.C03"], ["serial64", "serial32", "simd", "avx512"], ALL6, props.req_C03)
     R["C04"] = P(["Dalek.Props.C04"], ["serial64", "serial32", "simd", "avx512", "simd-notables", "serial64-notables"], ALL12, props.req_C04)
     R["C11"] = P(["Dalek.Props.C11"], ALL6, ALL6, props.req_C11, profiles=("checked", "release"))
+    R["C05"] = P(["Dalek.Props.C05"], ALL12, ALL12, props.req_C05)
+    R["C06"] = P(["Dalek.Props.C06"], ["serial64", "serial32", "simd", "avx512"], ALL6, props.req_C06)
+    R["C07"] = P(["Dalek.Props.C07"], ["serial64", "serial32", "simd", "avx512"], ALL6, props.req_C07)
+    R["C08"] = P(["Dalek.Props.C08"], ["serial64", "simd", "simd-notables"], ALL6 + ["simd-notables"], props.req_C08)
+    R["C09"] = P(["Dalek.Props.C09"], ["serial64", "simd", "avx512"], ALL6, props.req_C09, legacy=True)
+    R["C10"] = P(["Dalek.Props.C10"], ["serial64"], ["serial64"], props.req_C10, extra=special.extra_C10)
+    R["C12"] = P(["Dalek.Props.C12"], ALL6, ALL12, props.req_C12)
+    R["C13"] = P(["Dalek.Props.C13"], ["serial64", "simd", "avx512"], ALL6, props.req_C13)
+    R["C14"] = P(["Dalek.Props.C14"], ["serial64"], ["serial64"], props.req_C14, extra=special.extra_C14)
+    R["C15"] = P(["Dalek.Props.C15"], ["serial64", "serial32", "simd", "avx512"], ALL6, props.req_C15, profiles=("checked", "release"))
+    R["C16"] = P(["Dalek.Props.C16"], ["serial64", "simd"], ALL6, props.req_C16)
+    R["C17"] = P(["Dalek.Props.C17"], ["serial64", "serial32", "simd"], ALL6, props.req_C17)
 
 
 register()
@@ -223,6 +235,7 @@ def corr_stage(ctx, spec, boost=False):
     reqs = corpus + reqs
     lines = [l for _, l in reqs]
     model_out = run_model(lines)
+    model_legacy = run_model(lines, legacy=True) if spec["legacy"] else None
     outs = {}
     from concurrent.futures import ThreadPoolExecutor
     with ThreadPoolExecutor(max_workers=8) as ex:
@@ -232,7 +245,14 @@ def corr_stage(ctx, spec, boost=False):
                 outs[c] = f.result()
             except Exception as e:
                 problems.append("driver %s crashed: %r" % (c, e))
-    mism, evals = compare(reqs, outs, model_out)
+    if model_legacy is not None:
+        leg = {c: o for c, o in outs.items() if "-legacy" in c}
+        outs_n = {c: o for c, o in outs.items() if "-legacy" not in c}
+        mism, evals = compare(reqs, outs_n, model_out)
+        m2, e2 = compare(reqs, leg, model_legacy)
+        mism += m2; evals += e2
+    else:
+        mism, evals = compare(reqs, outs, model_out)
     # statistics
     classes = {}
     nontriv = set()
